@@ -41,7 +41,7 @@ REQUIRED_COUNTERS = [
     "verdicts.accept", "verdicts.reject", "model.agrees", "doc.cross_file", "doc.chained_ref", "doc.same_title_same_body",
     "doc.same_title_other_body", "doc.untitled_object", "docstrings.seen", "source_kw.seen", "imports.maybe",
     "cli.subprocess", "class_count.checked", "description.hostile", "doc.sibling_variant_same_process",
-    "dsl_modules", "dsl_modules.classes_equal",
+    "dsl_modules", "dsl_modules.classes_equal", "annotation_work.measured",
 ]
 VOCAB_TRIGGER = None
 
